@@ -10,7 +10,7 @@
 //!   never lost: a lost ARP exchange makes DhcpClient::start's unwrap kill the process, outside C15); IPv4
 //!   frames are duplicated (at most <dupmax> in the run), dropped or delayed with the given percentages.
 //!   watcher: the harness application of client c calls DhcpClient::ip_address() h(seed,1000+c) % (W+1) us
-//!   after the start barrier, with a deadline (30 s virtual / 250 ms real): a client that never learns an
+//!   after the start barrier, with a deadline (30 s virtual / 2 s real): a client that never learns an
 //!   address is reported as HANG.
 //! impl line: events in log order separated by ` ; `:
 //!   `S <u|d> <c> <type 1..7> <your_ip> <v|2|x>`  DHCP message handed to the network (u: client c -> server,
@@ -260,7 +260,7 @@ fn child(case: &str) -> ! {
             Arp::new(),
             server,
         ]];
-        let deadline = if paused { Duration::from_secs(30) } else { Duration::from_millis(250) };
+        let deadline = if paused { Duration::from_secs(30) } else { Duration::from_secs(2) };
         for c in 0..cfg.n {
             let delay = Duration::from_micros(if cfg.wmax_us > 0 { mix(cfg.seed, 1000 + c as u64) % (cfg.wmax_us + 1) } else { 0 });
             machines.push(new_machine_arc![
